@@ -27,7 +27,7 @@ from bitstring import Array, Dtype
 
 FUNCTIONAL = False
 LEVEL_TEXT = ("Lean theorems about the transcription of array_.py over the list-of-bits meaning of the BitArray primitives, for EVERY "
-              "item codec with dec(enc v) = v and |enc v| = w (so for every fixed-length dtype whose unit is one bit): data = chunks ++ trailing "
+              "item codec with dec(enc v) = v and |enc v| = w (every fixed-length dtype, every bits-per-unit multiplier): data = chunks ++ trailing "
               "(layout), and get / set / del / slice with any step / slice assignment / slice deletion / append / extend / insert / pop / "
               "reverse / count / iter / tolist / len commute with the Python-list operation under `items` with the trailing bits untouched; "
               "element-wise operators = map when every result fits and a failing in-place operator leaves the data unchanged; the code of "
@@ -36,8 +36,9 @@ LEVEL_TEXT = ("Lean theorems about the transcription of array_.py over the list-
 LEVEL_NOTE = ("Trusted: Lean kernel (+propext, Classical.choice, Quot.sound); bitarray's C slice get/assign/delete assumed to be Python "
               "slice semantics; the per-dtype item codecs (Dtype.build/read_fn) enter the theorems as hypotheses and are tied to the code "
               "only by the correspondence (independent plain-Python encoders); float arithmetic is not modelled (operator graphs for "
-              "float dtypes are computed by the harness). Known findings: bytesN Arrays (length vs bitlength), count() on non-numeric "
-              "dtypes, insert() with a negative index, ==/!= between Arrays of different dtypes, extend(array.array('l')).")
+              "float dtypes are computed by the harness). Six defects found by this check were fixed in /repo (bytesN Arrays, count() on "
+              "str/bytes items, insert() with a negative index, ==/!= between dtypes, scalar - Array, extend(array.array('l'))); their "
+              "witnesses run on every check.")
 TECHNIQUE = "Lean 4 proof (refinement of Python-list operations by offset arithmetic on one bit buffer) + lock-step history correspondence"
 NOT_YET_PROVED = []
 
@@ -987,22 +988,7 @@ def oracle(line, out, extra):
     return None
 
 
-# ---- regions of the known findings (same names as the Bool predicates in Model/C14.lean) -------------------
-def _flagged(name):
-    def pred(line):
-        f = line.split(SEP)
-        if f[1] != "hist":
-            return False
-        try:
-            _t, _v, flags, _c = _run_ref(f)
-        except Exception:                                          # noqa: BLE001
-            return False
-        return name in flags
-    return pred
-
-
-REGIONS = {n: _flagged(n) for n in ("bytes_dtype", "count_nonnumeric", "insert_negative", "eq_ne_arrays_mixed_dtype",
-                                     "extend_array_itemsize", "rsub_negation")}
+REGIONS = {}
 
 
 def nontrivial(line):
@@ -1017,8 +1003,8 @@ INT_TOKENS = [t for t, s in DT_STR.items() if dt_of(s).kind != "raw" and dt_of(s
 FLOAT_TOKENS = [t for t, s in DT_STR.items() if dt_of(s).rt == "float"]
 STR_TOKENS = [t for t, s in DT_STR.items() if dt_of(s).rt == "other" and dt_of(s).mult == 1]
 BYTES_TOKENS = [t for t, s in DT_STR.items() if dt_of(s).mult != 1]
-UNIT_TOKENS = [t for t, s in DT_STR.items() if dt_of(s).mult == 1]
-IDX_TOKENS = ["u3", "i5", "u8", "hex4", ">H", "bool", "float16", "i1", "bin3", "<h", "e2m1mxfp", "u17"]
+UNIT_TOKENS = list(DT_STR)          # every dtype, bytesN (8 bits per unit) included
+IDX_TOKENS = ["u3", "i5", "u8", "hex4", ">H", "bool", "float16", "i1", "bin3", "<h", "e2m1mxfp", "u17", "bytes1", "bytes2"]
 
 
 def D(tok):
@@ -1116,17 +1102,14 @@ def random_op(ref, rng, allow_bad=True):
     if r < 0.63:
         return f"ext:{_vsstr(rvals(dt, rng, rng.randint(0, 3)))}{rng.choice(['', ':it', ':tu'])}"
     if r < 0.71:
-        if tr:
-            i = rng.choice([0, 1, n, n + 1, n + 5, rng.randint(0, n + 1)])
-        else:
-            i = rng.choice([0, 1, n, n + 1, -1, -n, rng.randint(-n, n + 1)])
+        i = rng.choice([0, 1, n, n + 1, n + 5, -1, -n, -n - 1, -n - 3, rng.randint(-n - 2, n + 2)])
         return f"ins:{i}:{v()}"
     if r < 0.78:
         return "pop" if rng.random() < 0.4 else f"pop:{idx()}"
     if r < 0.82:
         return "rev"
     if r < 0.86:
-        if numeric:
+        if True:
             if ref.lst and rng.random() < 0.7:
                 cand = [x for x in ref.lst if not (dt.rt == "float" and int(x[2:] or "0", 2) == 0)]
                 if cand:
@@ -1135,7 +1118,6 @@ def random_op(ref, rng, allow_bad=True):
             if dt.rt == "float" and int(x[2:] or "0", 2) == 0:
                 return "list"
             return f"cnt:{_vstr(x)}"
-        return "iter"
     if r < 0.89:
         return rng.choice(["list", "iter", "copy", "tobytes"])
     if r < 0.92:
@@ -1213,8 +1195,7 @@ def gen(rng, tier):
                 yield hist(dt, vals, tr, [f"set:{i}:{_vstr(rvalue(dt, rng))}", "list"])
                 yield hist(dt, vals, tr, [f"del:{i}"])
                 yield hist(dt, vals, tr, [f"pop:{i}", "len"])
-                if not (dt.rt == "float" and i < 0 and tr):        # (a split float item may be a NaN with a payload)
-                    yield hist(dt, vals, tr, [f"ins:{i}:{_vstr(rvalue(dt, rng))}"])
+                yield hist(dt, vals, tr, [f"ins:{i}:{_vstr(rvalue(dt, rng))}"])
             yield hist(dt, vals, tr, ["pop", "pop", "pop"])
             yield hist(dt, vals, tr, ["rev", "rev"])
             bounds = [None] + list(range(-(n + 2), n + 3))
@@ -1224,7 +1205,10 @@ def gen(rng, tier):
                     vals, tr = mk()
                     yield hist(dt, vals, tr, [f"sl:{sv(a)}:{sv(b)}:{sv(c)}" for c in steps])
                     for c in steps:
-                        if not big and rng.random() < 0.62:
+                        skip = not big and rng.random() < 0.62
+                        if skip and c is not None and c <= -2:
+                            yield hist(dt, vals, tr, [f"dsl:{sv(a)}:{sv(b)}:{sv(c)}"])      # negative extended steps: always
+                        if skip:
                             continue
                         if c == 0:
                             k = 1
@@ -1248,7 +1232,9 @@ def gen(rng, tier):
                                       "sl:1:None:2", f"ssl:None:None:2:{_vsstr(rvals(dt, rng, (n + 2) // 2))}", "pop:0", "dsl:None:None:2", "copy", "tobytes"])
             yield hist(dt, vals, None, [f"app:{v()}", f"ext:{v()},{v()}", "rev", "pop", "extself", f"ssl:1:2:None:{v()},{v()},{v()}", "del:-1", "list"])
             yield hist(dt, [], None, [], init=f"N:{rng.choice([0, 1, 3])}")
-            yield hist(dt, [], tr, ["len", "list", "get:0", f"ins:5:{v()}", "pop"], init="B:" + wire(_canon_bits(dt, rng, rng.choice([0, dt.w, 2 * dt.w + (1 if dt.w > 1 else 0), 3 * dt.w]))))
+            bb = _canon_bits(dt, rng, rng.choice([0, dt.w, 2 * dt.w + (1 if dt.w > 1 else 0), 3 * dt.w]))
+            # (floats: a partial item completed by trailing_bits could be a NaN with a payload, which tolist() cannot show)
+            yield hist(dt, [], None if (dt.rt == "float" and len(bb) % dt.w) else tr, ["len", "list", "get:0", f"ins:5:{v()}", "pop"], init="B:" + wire(bb))
             yield hist(dt, vals, None, [], init="-")
             # a value that does not fit: construction, and each single-value mutator leaves the Array unchanged
             bad = _vstr(badvalue(dt, rng))
@@ -1314,7 +1300,7 @@ def gen(rng, tier):
             m = rand_bits(rng, dt.w)
             yield hist(dt, vals, rtrail(dt, rng, 0.5), [f"bop:{name}:{wire(m)}"] + ([f"ibop:{name}:{wire(m)}", "list"] if dt.rt != "float" else []))
     # operators between Arrays: every pair of these dtypes, all lengths equal / unequal
-    pair_tokens = ["u4", "u8", "u16", "i4", "i8", "i16", "bool", "uintle16", "intbe16", "<b", "i64", "u65"]
+    pair_tokens = ["u4", "u8", "u16", "i4", "i8", "i16", "bool", "uintle16", "uintbe16", "intbe16", "intle16", "<b", "i64", "u65"]
     for ta in pair_tokens:
         for tb in pair_tokens:
             da, db = D(ta), D(tb)
@@ -1413,7 +1399,7 @@ def gen(rng, tier):
             bits = format(int.from_bytes(raw, "big"), "0%db" % (8 * len(raw))) if raw else ""
             own = rvals(dt, rng, 2) if dt.kind != "raw" else []
             yield hist(dt, own, None, [f"extb:{tc}:{name2}:{stdsize}:{native}:{wire(bits)}:{','.join(map(str, xs))}", "list"])
-    # ---------------------------------------------------------------- 8. known-deviation regions (dedicated, short)
+    # ---------------------------------------------------------------- 8. the areas of the six fixed defects (dedicated, short)
     for tok in BYTES_TOKENS:
         dt = D(tok)
         v = lambda: _vstr(rvalue(dt, rng))
